@@ -279,30 +279,34 @@ func Sync(logger *log.Logger, oldVersion string, newVersion string, dryRun bool)
 		}
 
 		// write the metadata section to the new file
-		metadataWriter := io.NewOffsetWriter(outfile, int64(newHeader.MetadataOffset))
-		req, err = http.NewRequest("GET", newVersion, nil)
-		req.Header.Set("Range", fmt.Sprintf("bytes=%d-%d", newHeader.MetadataOffset, newHeader.MetadataOffset+newHeader.MetadataLength-1))
-		resp, err = client.Do(req)
-		if err != nil {
-			return err
+		if newHeader.MetadataLength > 0 {
+			metadataWriter := io.NewOffsetWriter(outfile, int64(newHeader.MetadataOffset))
+			req, err = http.NewRequest("GET", newVersion, nil)
+			req.Header.Set("Range", fmt.Sprintf("bytes=%d-%d", newHeader.MetadataOffset, newHeader.MetadataOffset+newHeader.MetadataLength-1))
+			resp, err = client.Do(req)
+			if err != nil {
+				return err
+			}
+			io.Copy(metadataWriter, resp.Body)
 		}
-		io.Copy(metadataWriter, resp.Body)
 
 		// write the leaf directories, if any, to the new file (show progress)
-		leafWriter := io.NewOffsetWriter(outfile, int64(newHeader.LeafDirectoryOffset))
-		req, err = http.NewRequest("GET", newVersion, nil)
-		req.Header.Set("Range", fmt.Sprintf("bytes=%d-%d", newHeader.LeafDirectoryOffset, newHeader.LeafDirectoryOffset+newHeader.LeafDirectoryLength-1))
-		resp, err = client.Do(req)
-		if err != nil {
-			return err
-		}
+		if newHeader.LeafDirectoryLength > 0 {
+			leafWriter := io.NewOffsetWriter(outfile, int64(newHeader.LeafDirectoryOffset))
+			req, err = http.NewRequest("GET", newVersion, nil)
+			req.Header.Set("Range", fmt.Sprintf("bytes=%d-%d", newHeader.LeafDirectoryOffset, newHeader.LeafDirectoryOffset+newHeader.LeafDirectoryLength-1))
+			resp, err = client.Do(req)
+			if err != nil {
+				return err
+			}
 
-		leafBar := progressbar.DefaultBytes(
-			int64(newHeader.LeafDirectoryLength),
-			"downloading leaf directories",
-		)
-		io.Copy(leafWriter, io.TeeReader(resp.Body, leafBar))
-		leafBar.Close()
+			leafBar := progressbar.DefaultBytes(
+				int64(newHeader.LeafDirectoryLength),
+				"downloading leaf directories",
+			)
+			io.Copy(leafWriter, io.TeeReader(resp.Body, leafBar))
+			leafBar.Close()
+		}
 
 		fmt.Println(len(have), "local chunks")
 		bar := progressbar.DefaultBytes(
